@@ -264,3 +264,30 @@ def _(E, meth):
     E.tol(1e-9, 1e-9)
     E.ensure("same_physical_length_(six-digit_constants)", close(back, v, 2 * REL6, v) if E.mode == "symbolic" else
              Abs(back - v) <= 2 * REL6 * Abs(v) + 1e-9)
+
+
+@family("C12/Length.value/percent_of_a_length", [(u, form) for u in UNITS if u != "%" for form in ("Length", "text")],
+        funcs=["Length.value", "Length.__imul__", "Length.__mul__", "Length.__init__", "Viewbox.__init__",
+               "Viewbox.set_viewbox"])
+def _(E, case):
+    """a percentage of a reference given as a Length or as text resolves like that length, with every datum forwarded"""
+    u, form = case
+    a = E.real("a", AMT)
+    r = E.real("r", lambda q: q.uniform(0.5, 40))
+    E.assume(r >= 0)                       # sign belongs to the numeral spelling for the text form (A5)
+    ppi = E.real("ppi", lambda q: q.choice([72.0, 96.0, 254.0]))
+    fs, fh = E.reals("fs fh", lambda q: q.uniform(4, 40))
+    vbw, vbh = E.reals("vbw vbh", lambda q: q.uniform(1, 500))
+    E.assume(And(ppi > 0, vbw > 0, vbh > 0))
+    vb = E.construct("Viewbox", 0.0, 0.0, vbw, vbh)
+    ref = E.new("Length", amount=r, units=u) if form == "Length" else E.text("%s" + u, r)
+    L = E.new("Length", amount=a, units="%")
+    got = E.call(L, "value", ppi=ppi, relative_length=ref, font_size=fs, font_height=fh, viewbox=vb)
+    scale = {"em": fs, "ex": fh, "vw": vbw / 100, "vh": vbh / 100, "vmin": Min(vbw, vbh) / 100,
+             "vmax": Max(vbw, vbh) / 100}
+    want = a / 100 * resolve(E, r, u, ppi, scale)
+    E.ensure("is_a_number", E.is_number(got))
+    if u in ("cm", "mm"):
+        E.ensure("percentage_of_the_resolved_reference_(six-digit_constants)", close(E.num(got), want, REL6, want))
+    else:
+        E.ensure("percentage_of_the_resolved_reference", E.num(got) == want)
